@@ -14,3 +14,17 @@ package otlpmetrichttp
 //@   ensures !ok ==> d == 0
 //@   ensures ok && 0 <= cast(err, "retryableError").throttle && cast(err, "retryableError").throttle <= 9223372036 ==> d == cast(err, "retryableError").throttle * 1000000000
 //@   known KF-C14-retry-after-ns-otlpmetrichttp when typeis(err, "retryableError") && cast(err, "retryableError").throttle != 0
+
+// newRequest: the request's body factory is, on every path, the result of bodyReader(...) - a closure that opens a NEW reader
+// over an immutable byte slice for every attempt, so that a retry re-sends the identical payload (a shared, drainable buffer
+// would leave retries with an empty body)
+//@ ghost var brCalls int
+//@ func (c *client) newRequest(ctx context.Context, body []byte) (req request, err error)
+//@   prop C14
+//@   overflow assumed
+//@   unchecked frame,no-panic net/http, gzip and the pool are outside the contracts
+//@   modifies ghost brCalls
+//@   ghost@entry : brCalls = 0
+//@   assert@call bodyReader#1 : $arg0 === body
+//@   ghost@call bodyReader#* : brCalls = brCalls + 1
+//@   assert@store bodyReader#* : brCalls == 1
